@@ -170,7 +170,11 @@ def run_shard(ctx):
     for i in range(n):
         # every third history also attempts operations on an incomplete database: they fail
         # atomically (MissingTrieNode) or succeed, and the root must stay canonical afterwards
-        case = hh.gen_history(rnd, rnd.randint(1, maxops), fail_p=0.1 if i % 3 == 2 else 0.0)
+        if i % 25 == 24:
+            case = hh.gen_bulk_history(rnd, ctx.tier)
+            ctx.count("bulk_histories")
+        else:
+            case = hh.gen_history(rnd, rnd.randint(1, maxops), fail_p=0.1 if i % 3 == 2 else 0.0, sp_p=0.04, bad_p=0.02)
         if i < 2:
             ctx.sample(case)
         run_case_guarded(mod, case, ctx)
